@@ -430,4 +430,73 @@ theorem reverse_spec (s : St) (l : Hdr) (cs : List Cell) (r : SRepr s.heap l cs)
     · have := r.nodup; simp only [idsOf, List.map_reverse] at this ⊢; exact (List.reverse_perm _).nodup_iff.2 this
     · simp only []; rw [lastOr_reverse]
 
+/-! ### `cc_slist_filter_mut` -/
+
+theorem filterMutLoop_none (pr : Nat → Bool) (k : Nat) (s : St) (l : Hdr) (p : Option Nat) (m : Mem) :
+    filterMutLoop pr k s l none p m = (s, l, m) := by cases k <;> rfl
+
+/-- the loop, standing at the first node of `rest` with `kept` already decided and `prev` the last kept node: exactly the
+nodes of `rest` that fail the predicate leave the chain (one `mem_free` each, each unlinked behind its true predecessor),
+every other node keeps its identity and its place -/
+theorem filterMutLoop_spec (pr : Nat → Bool) : ∀ (rest kept : List Cell) (k : Nat) (s : St) (l : Hdr) (m : Mem),
+    SRepr s.heap l (kept ++ rest) → (∀ x, x ∈ idsOf (kept ++ rest) → x < s.fresh) → rest.length ≤ k →
+    (filterMutLoop pr k s l (nxt rest none) (lastOr kept none) m).2.2 =
+      Mem.freeN l.triple (rest.length - (rest.filter (fun c => pr c.2)).length) m ∧
+    SKeeps s (filterMutLoop pr k s l (nxt rest none) (lastOr kept none) m).1 l
+      (filterMutLoop pr k s l (nxt rest none) (lastOr kept none) m).2.1
+      (kept ++ rest) (kept ++ rest.filter (fun c => pr c.2))
+  | [], kept, k, s, l, m, r, hb, _ => by
+    simp only [show nxt ([] : List Cell) none = none from rfl, filterMutLoop_none, List.filter_nil, List.length_nil,
+      Nat.sub_self, Mem.freeN]
+    exact ⟨by first | trivial | rfl, r, rfl, Nat.le_refl _, hb, fun _ _ _ => rfl⟩
+  | a :: rest, kept, 0, s, l, m, _, _, hk => by simp at hk
+  | a :: rest, kept, k + 1, s, l, m, r, hb, hk => by
+    obtain ⟨_, ha, _⟩ := SSeg_split r.seg
+    have hk' : rest.length ≤ k := by simpa using hk
+    have hfl : (rest.filter (fun c => pr c.2)).length ≤ rest.length := List.length_filter_le _ _
+    simp only [nxt_cons, filterMutLoop, nd_of ha]
+    by_cases hp : pr a.2 = true
+    · have r' : SRepr s.heap l ((kept ++ [a]) ++ rest) := by simpa using r
+      have hb' : ∀ x, x ∈ idsOf ((kept ++ [a]) ++ rest) → x < s.fresh := by simpa using hb
+      obtain ⟨i1, i2⟩ := filterMutLoop_spec pr rest (kept ++ [a]) k s l m r' hb' hk'
+      have hl : lastOr (kept ++ [a]) none = some a.1 := by rw [lastOr_append]; rfl
+      rw [hl] at i1 i2
+      simp only [hp, Bool.not_true, Bool.false_eq_true, if_false, List.filter_cons, if_true, List.length_cons]
+      refine ⟨by rw [i1]; congr 1; omega, ?_⟩
+      have e1 : kept ++ a :: rest = (kept ++ [a]) ++ rest := by simp
+      have e2 : kept ++ a :: rest.filter (fun c => pr c.2) = (kept ++ [a]) ++ rest.filter (fun c => pr c.2) := by simp
+      rw [e1, e2]; exact i2
+    · have hp' : pr a.2 = false := by simpa using hp
+      obtain ⟨_, u2, uk⟩ := unlinkn_spec s l kept rest a m r hb
+      obtain ⟨i1, i2⟩ := filterMutLoop_spec pr rest kept k (unlinkn s l a.1 (lastOr kept none) m).2.1
+        (unlinkn s l a.1 (lastOr kept none) m).2.2.1 (unlinkn s l a.1 (lastOr kept none) m).2.2.2 uk.repr uk.bound hk'
+      simp only [hp', Bool.not_false, if_true, List.filter_cons, Bool.false_eq_true, if_false, List.length_cons]
+      refine ⟨?_, i2.repr, i2.triple.trans uk.triple, Nat.le_trans uk.mono i2.mono, i2.bound, fun b hb1 hb2 => ?_⟩
+      · rw [i1, u2, uk.triple]
+        have : rest.length + 1 - (rest.filter (fun c => pr c.2)).length =
+            (rest.length - (rest.filter (fun c => pr c.2)).length) + 1 := by omega
+        rw [this]; rfl
+      · have hb3 : b ∉ idsOf (kept ++ rest) := by
+          intro hm; apply hb1
+          simp only [idsOf_append, idsOf_cons, List.mem_append, List.mem_cons] at hm ⊢
+          rcases hm with hm | hm
+          · exact Or.inl hm
+          · exact Or.inr (Or.inr hm)
+        rw [i2.frame b hb3 (Nat.lt_of_lt_of_le hb2 uk.mono)]
+        exact uk.frame b hb1 hb2
+
+/-- **`cc_slist_filter_mut`** -/
+theorem filterMut_spec (pr : Nat → Bool) (s : St) (l : Hdr) (cs : List Cell) (m : Mem) (r : SRepr s.heap l cs)
+    (hb : ∀ x, x ∈ idsOf cs → x < s.fresh) :
+    (cs = [] → filterMut pr s l m = (.errOutOfRange, s, l, m)) ∧
+    (cs ≠ [] → (filterMut pr s l m).1 = .ok ∧
+      (filterMut pr s l m).2.2.2 = Mem.freeN l.triple (cs.length - (cs.filter (fun c => pr c.2)).length) m ∧
+      SKeeps s (filterMut pr s l m).2.1 l (filterMut pr s l m).2.2.1 cs (cs.filter (fun c => pr c.2))) := by
+  unfold filterMut
+  refine ⟨fun e => by subst e; simp [r.size], fun hne => ?_⟩
+  have hsz : l.size ≠ 0 := by rw [r.size]; exact fun e => hne (List.eq_nil_of_length_eq_zero e)
+  rw [if_neg hsz, r.size, r.head]
+  obtain ⟨i1, i2⟩ := filterMutLoop_spec pr cs [] cs.length s l m (by simpa using r) (by simpa using hb) (Nat.le_refl _)
+  exact ⟨rfl, i1, by simpa using i2⟩
+
 end CC.PSList
